@@ -160,8 +160,10 @@ func newRig(w *world, mat *materialized) *rig {
 // handleLeakDiagnostic removes everything below the top directory and then
 // asks the NFS handle pool (read-only verif hook) what it still tracks. Leaf
 // handles that survive are leaves whose link count was not returned, e.g.
-// leaves created by a directory load that failed half way. This is a
-// DIAGNOSTIC (how the code keeps its books), not part of the C17 verdict.
+// leaves created by a directory load that failed half way, which
+// fetchContentsUnwrapped documents it unlinks. Callers treat a non-empty
+// answer as a violation, unless a MergeDirectoryContents failed because of
+// existing names (r.mergeCollisions; see there).
 func (r *rig) handleLeakDiagnostic() string {
 	if r.w.nfs == nil {
 		return ""
@@ -187,7 +189,7 @@ func (r *rig) nodeFromEntry(e entrySpec) *mnode {
 	case kindFile:
 		return &mnode{kind: kindFile, exec: e.Exec, cas: true, content: e.Content, data: []byte(r.spec.Contents[e.Content])}
 	default:
-		return &mnode{kind: kindSymlink, target: e.Target}
+		return &mnode{kind: kindSymlink, target: normTarget(e.Target)}
 	}
 }
 
